@@ -288,6 +288,27 @@ def explore_stack(make, label, case, p, expect_distinct, maxlen=3, workers=True)
     except Exception as e:
         p.violation(f"C08:exception_at_access:{type(e).__name__}|{label}", case, f"{label}: {type(e).__name__}: {e}")
         return
+    # the value must not depend on whether the caller asks for the context
+    if ok:
+        try:
+            set_global(0)
+            ds_ctx, idx_map = make()
+            set_global(0)
+            ds_plain, _ = make()
+            from kappadata.wrappers.mode_wrapper import ModeWrapper
+            plain = ModeWrapper(ds_plain.dataset, mode=ds_plain.mode, return_ctx=False)
+            for k in range(n_pos):
+                with_ctx = ds_ctx[k]
+                without = plain[k]
+                p.transitions += 2
+                if dig(with_ctx[0]) != dig(without):
+                    p.violation(f"C08:value_depends_on_context_request|{label}", dict(case, position=k),
+                                f"{label}: sample at position {k} differs between return_ctx=True and return_ctx=False")
+                    ok = False
+                    break
+        except Exception as e:
+            p.violation(f"C08:exception_at_access:{type(e).__name__}|{label}", case, f"{label}: {type(e).__name__}: {e}")
+            return
     p.evaluations += 1
     if ok and expect_distinct and len(table) == N and len(set(table.values())) != N:
         p.violation(f"C08:indices_share_a_stream|{label}", case,
